@@ -59,6 +59,7 @@ type apiEnv struct {
 	read  http.Handler
 	write http.Handler
 	chk   *check.Handler
+	oplFile string
 }
 
 func newAPIEnv(t testing.TB, opl string) *apiEnv {
@@ -75,7 +76,7 @@ func newAPIEnv(t testing.TB, opl string) *apiEnv {
 	if _, err := reg.Config(ctx).NamespaceManager(); err != nil {
 		t.Fatal(err)
 	}
-	return &apiEnv{reg: reg, ctx: ctx, read: reg.ReadRouter(ctx), write: reg.WriteRouter(ctx), chk: check.NewHandler(reg)}
+	return &apiEnv{reg: reg, ctx: ctx, read: reg.ReadRouter(ctx), write: reg.WriteRouter(ctx), chk: check.NewHandler(reg), oplFile: f}
 }
 
 func (e *apiEnv) do(h http.Handler, method, target string, body []byte) (code int, resp []byte, panicked string) {
@@ -212,6 +213,14 @@ func streamHCheck(t *testing.T, o *Out) {
 				}
 				ts = append(ts, tt)
 			}
+			// a chain of nested groups so that answers need two or more indirections
+			alice, gmem := "alice", "members"
+			ts = append(ts,
+				&ketoapi.RelationTuple{Namespace: "Doc", Object: "a", Relation: "viewers", SubjectSet: &ketoapi.SubjectSet{Namespace: "Group", Object: "a", Relation: gmem}},
+				&ketoapi.RelationTuple{Namespace: "Doc", Object: "b", Relation: "viewers", SubjectSet: &ketoapi.SubjectSet{Namespace: "Group", Object: "a", Relation: gmem}},
+				&ketoapi.RelationTuple{Namespace: "Group", Object: "a", Relation: gmem, SubjectSet: &ketoapi.SubjectSet{Namespace: "Group", Object: "b", Relation: gmem}},
+				&ketoapi.RelationTuple{Namespace: "Group", Object: "b", Relation: gmem, SubjectSet: &ketoapi.SubjectSet{Namespace: "Group", Object: "c", Relation: gmem}},
+				&ketoapi.RelationTuple{Namespace: "Group", Object: "c", Relation: gmem, SubjectID: &alice})
 			its, err := env.reg.Mapper().FromTuple(env.ctx, ts...)
 			if err != nil {
 				t.Fatal(err)
@@ -225,6 +234,15 @@ func streamHCheck(t *testing.T, o *Out) {
 		entries := make([]hEntry, k)
 		for j := range entries {
 			tt := env.genTuple(r, objs, subs)
+			switch {
+			case j > 0 && r.Intn(3) == 0:
+				// duplicates within one batch
+				tt = entries[r.Intn(j)].t
+			case r.Intn(3) == 0:
+				// entries that share intermediate subject sets
+				al := "alice"
+				tt = &ketoapi.RelationTuple{Namespace: "Doc", Object: pick(r, []string{"a", "b"}), Relation: pick(r, []string{"viewers", "view", "ok"}), SubjectID: &al}
+			}
 			en := hEntry{t: tt, tupleOk: tt.SubjectID != nil || tt.SubjectSet != nil, nsKnown: true}
 			if !en.tupleOk {
 				nm, _ := env.reg.Config(env.ctx).NamespaceManager()
